@@ -266,6 +266,12 @@ def gen_entry(src, kind, pool, allow_neg_endpoint):
     if shape in ("lit", "simple"):
         return gen_simple(src, kind, pool, allow_neg_endpoint)
     items = [gen_simple(src, kind, pool, allow_neg_endpoint) for _ in range(src.int(1 if shape == "not" else 2, 3))]
+    if shape == "not" and not src.bool(0.25):
+        # negated intervals / booleans only in a quarter of the negations (an open finding sits there; keep the rest searchable)
+        items = [x if not (x[0] == "iv" or (x[0] == "lit" and x[1][0] == "b")) else
+                 (["lit", x[2]] if x[0] == "iv" else None) for x in items]
+        if any(x is None for x in items):
+            return ["lit", src.choice(pool)]
     return [shape, items]
 
 
